@@ -24,7 +24,7 @@ import time
 
 import vlib
 
-PROPS = ['Props/C11.v']
+PROPS = ['Props/C11.v', 'Props/C11src.v']
 
 LF = 10
 PATCH_H = [1, 2, 3, 4, 7, 8, 16]
@@ -144,14 +144,14 @@ def ref_fwd(c, o, H, A):
     p = ref_next_lf(c, o)
     if p is not None:
         return [1, p] if p - o < A * H else [0]
-    return [2, len(c)] if len(c) - o <= (A - 1) * H else [0]
+    return [2, len(c)] if len(c) - o < A * H else [0]
 
 
 def ref_bwd(c, o, H, A):
     q = ref_prev_lf(c, o)
     if q is not None:
         return [1, q] if o - q <= A * H else [0]
-    return [2, 0] if o <= (A - 1) * H else [0]
+    return [2, 0] if o < A * H else [0]
 
 
 def ref_lookup(c, o, H, A, W, window=True):
@@ -226,8 +226,8 @@ def gen_small(rng, H, A):
     the budget boundaries (A-1)*H, A*H """
     cap = 2 * A * H + 2 * H + 3
     marks = [0, 1, H - 1, H, H + 1, 2 * H - 1, 2 * H, 2 * H + 1,
-             (A - 1) * H - 1, (A - 1) * H, (A - 1) * H + 1,
-             A * H - 1, A * H, A * H + 1, A * H + H]
+             (A - 1) * H - 1, (A - 1) * H, (A - 1) * H + 1, (A - 1) * H + 2,
+             A * H - 2, A * H - 1, A * H, A * H + 1, A * H + 2, A * H + H]
     marks = [m for m in marks if m >= 0]
     nlines = rng.choice([1, 1, 2, 2, 3, 4, 5])
     out = bytearray()
@@ -313,7 +313,8 @@ def judge(chk, c, o, H, A, W, impl_line, ref_exact, source):
     witness was recorded. """
     ls, le, term = ref_line(c, o)
     linelen = (le + 1 if term else le) - ls          # terminator included
-    inside = linelen <= A * H                        # the documented limit
+    # the documented limit: fewer than A*H bytes before the line feed / end
+    inside = (le - ls) < A * H
     detail = {'content_len': len(c), 'offset': o, 'SEEK_HORIZON': H,
               'MAX_SEEK_HORIZON_EXPAND': A, 'MAX_DATETIME_READ_BYTES': W,
               'line_start': ls, 'line_end_lf_or_eof': le,
@@ -330,22 +331,12 @@ def judge(chk, c, o, H, A, W, impl_line, ref_exact, source):
             edge = 'first' if ref_prev_lf(c, o) is None else 'last'
             if ref_prev_lf(c, o) is not None and term:
                 edge = 'interior'
-            if ref_exact == [0]:
-                # the shape of the modelled code: a first / unterminated last
-                # line only gets (A-1)*H (Props/C11.v C11_first_line_gap,
-                # C11_last_line_gap)
-                chk.dist(f'GAP_maxline_within_limit_{edge}_line')
-                key = ('gap', edge, H)
-                _SEEN[key] = _SEEN.get(key, 0) + 1
-                if _SEEN[key] <= 1 and sum(
-                        1 for k in _SEEN if k[0] == 'gap') <= 4:
-                    chk.violation(
-                        f'maxline-raised-within-limit edge={edge}-line',
-                        detail)
-            else:
+            key = ('within', edge, H, A)
+            _SEEN[key] = _SEEN.get(key, 0) + 1
+            chk.dist(f'REGRESSION_maxline_within_limit_{edge}_line')
+            if _SEEN[key] <= 2:
                 chk.violation(
-                    f'maxline-raised-inside-exact-budget edge={edge}-line',
-                    detail)
+                    f'maxline-raised-within-limit edge={edge}-line', detail)
             return True
         return False
     # a line was returned: must be THE line (when the line is within limit)
@@ -652,23 +643,29 @@ def run(chk):
     shapes = set()
 
     # (d) the documented limit with the real constants: single lookups on
-    # ~1 MiB lines, implementation vs reference (the model side is
-    # Props/C11.v C11_real_first_line_gap / C11_real_interior_line)
+    # ~1 MiB lines at both ends of a file and in the middle, lengths around
+    # (A-1)*H+1 .. A*H+1, implementation vs reference (the model side is
+    # Props/C11.v C11_real_short_line / C11_real_terminated_line /
+    # C11_long_*_raises / C11_real_legacy_*_refuted)
     lim = H0 * A0
     big = []
     if lim <= (1 << 22):
-        first = b'x' * (lim - 100) + b'\nyy\n'        # first line < limit
-        inter = b'yy\n' + b'x' * (lim - 1) + b'\nzz'  # interior line = limit
-        last = b'yy\n' + b'x' * (lim - 100)           # unterminated last line
-        over = b'yy\n' + b'x' * (lim + 5) + b'\nzz'   # interior line > limit
-        big = [(first, [0, lim - H0 - 100, lim - 101, lim - 100],
-                f"first: b'x'*{lim - 100} + b'\\nyy\\n'"),
-               (inter, [3, 4, lim + 1, lim + 2],
-                f"interior: b'yy\\n' + b'x'*{lim - 1} + b'\\nzz'"),
-               (last, [3, 3 + H0, len(last) - 1, len(last)],
-                f"last: b'yy\\n' + b'x'*{lim - 100}"),
-               (over, [3, lim + 8],
-                f"over: b'yy\\n' + b'x'*{lim + 5} + b'\\nzz'")]
+        def edge_offsets(a, b):
+            return sorted({a, a + 1, a + H0, (a + b) // 2, b - H0, b - 1, b}
+                          & set(range(a, b + 1)))
+        for k in (lim - H0 - 1, lim - H0, lim - H0 + 1, lim - 100, lim - 2,
+                  lim - 1, lim, lim + 1):
+            # k bytes before the line feed / the end of the file
+            first = b'x' * k + b'\nyy\n'
+            big.append((first, edge_offsets(0, k),
+                        f"first: b'x'*{k} + b'\\nyy\\n'"))
+            last = b'yy\n' + b'x' * k
+            big.append((last, edge_offsets(3, 3 + k),
+                        f"last: b'yy\\n' + b'x'*{k}"))
+        for k in (lim - 2, lim - 1, lim, lim + 5):
+            inter = b'yy\n' + b'x' * k + b'\nzz'
+            big.append((inter, edge_offsets(3, 3 + k),
+                        f"interior: b'yy\\n' + b'x'*{k} + b'\\nzz'"))
     for c, offs, name in big:
         got = impl_lookup(c, offs, H0, A0, W0, window=False, toks=False)
         for o, rec in zip(offs, got):
@@ -686,7 +683,7 @@ def run(chk):
                     witness=False)
 
     # (a) tiny files, patched constants
-    per = 10 if chk.quick else 40
+    per = 8 if chk.quick else 40
     items = []
     for H in PATCH_H:
         for A in PATCH_A:
@@ -713,13 +710,14 @@ def run(chk):
 
     # (c) real constants
     kinds = ['plain', 'leading', 'trailing', 'consecutive', 'nolf', 'plain']
-    nreal = 8 if chk.quick else 40
+    nreal = 6 if chk.quick else 40
     items, items_t = [], []
     for k in range(nreal):
         c = gen_real(rng, kinds[k % len(kinds)])
         offs = list(range(len(c) + 1))
         src = 'real/file' if k % 4 == 0 else 'real/bytesio'
-        items.append((H0, A0, W0, c, offs, src))
+        for j in range(0, len(offs), 600):     # split for parallel coqc
+            items.append((H0, A0, W0, c, offs[j:j + 600], src))
         lfs = [i for i, b in enumerate(c) if b == LF]
         near = sorted({o for p in lfs for o in (p - 1, p, p + 1)
                        if 0 <= o <= len(c)} | set(range(0, len(c) + 1, 37))
